@@ -44,7 +44,8 @@ def capacity(F, S):
     if m and m.group(1).strip() in widths:
         iw = widths[m.group(1).strip()]
     cmax = (1 << iw) - 1
-    root = ("idx", ("mem", ("this",), "subtreeCount"), ("mem", ("this",), "rootNodeIndex"))
+    # the root's position is whatever the public accessor reports (a stored member, or an expression such as nodeCount - 1)
+    root = ("idx", ("mem", ("this",), "subtreeCount"), F.method_value(AH + "::GetRootNodeIndex", ("this",)))
     def refusal(f):
         return (f[0] == "!=" and root in (f[1], f[2]) and ("const", cmax) in (f[1], f[2])) or \
             (f[0] == "<" and f[1] == root and f[2] == ("const", cmax))
@@ -70,8 +71,18 @@ def root_counted(F, S):
     fn = F.fn(AH + "::UpdateCodeCount", nparams=1)
     eng = Engine(F, S)
     ex = eng.analyze(fn, frozenset()) or frozenset()
-    root = ("mem", ("this",), "rootNodeIndex")
-    curs = [f[1] if f[2] == root else f[2] for f in ex if f[0] == "==" and root in (f[1], f[2]) and (f[1][0] == "var" or f[2][0] == "var")]
+    root = F.method_value(AH + "::GetRootNodeIndex", ("this",))
+    # (a local that is never assigned after its declaration merely names the root's position: it is not the walk's cursor)
+    assigned = set()
+    for nd0 in fn.nodes:
+        if is_store(nd0) or (nd0["k"] == "UnaryOperator" and nd0.get("op") in ("++", "--")):
+            assigned.add(fn.term(fn.kids(nd0["id"])[0]))
+    same = {root}
+    for _ in range(3):
+        for f in ex:
+            if f[0] == "==" and (f[1] in same or f[2] in same):
+                same |= {f[1], f[2]}
+    curs = sorted(c for c in same if c[0] == "var" and c in assigned)
     inst = AH + "::UpdateCodeCount#root-counted"
     req = "the walk ends on the root and the root's count is incremented by every update (it is the total the capacity refusal reads)"
     if not curs:
@@ -327,7 +338,7 @@ def units(F, S):
             if nd["k"] == "DeclStmt":
                 for d in nd.get("decls", []):
                     if (d.get("td") or "").endswith("NodeIndex") and "init" in d:
-                        it = fn.term(d["init"])
+                        it = fn.xterm(d["init"])
                         if not mentions(it, code):
                             continue
                         n += 1
@@ -352,7 +363,7 @@ def units(F, S):
     # the reverse direction: leaf -> symbol is linkOrData[i] - nodeCount
     g = F.fn(AH + "::GetNodeData", nparams=1)
     r = returns(g)
-    t = g.term(r[0]["value"]) if len(r) == 1 else None
+    t = g.xterm(r[0]["value"]) if len(r) == 1 else None
     want = ("op", "-", ("idx", ("mem", ("this",), "linkOrData"), P(g, 0)), ("mem", ("this",), "nodeCount"))
     inst = AH + "::GetNodeData#leaf-to-code"
     if t == want:
